@@ -19,6 +19,16 @@ Theorem c17_exact : forall uri pic mime szb,
     (length offs <= d)%nat /\ (forall o, In o offs -> (n <= o < length pic)%nat) /\ StronglySorted lt offs.
 Proof. exact art_loop_exact. Qed.
 
+(* the whole call against one source (embedded picture, or the cover file after the fallback): the
+   first request is at offset 0, the following ones at strictly increasing offsets, at most |pic|
+   of them, and the result is exactly the picture - for EVERY picture (the empty one included) and
+   EVERY sequence of positive chunk limits *)
+Theorem c17_whole_call : forall uri pic mime szb,
+  parse_uint 64 szb = Some (N.of_nat (length pic)) -> forall limit, (forall k, (1 <= limit k)%nat) -> forall emb,
+  exists offs, art_whole uri pic mime szb limit emb = (ArtSome pic (if emb then mime else None), 0%nat :: offs) /\
+               (length offs <= length pic)%nat /\ StronglySorted lt (0%nat :: offs).
+Proof. exact art_whole_exact. Qed.
+
 (* the first request is at offset 0 and its chunk starts the loop (or completes a small picture) *)
 Theorem c17_first_request : forall uri pic mime szb limit,
   parse_uint 64 szb = Some (N.of_nat (length pic)) ->
@@ -54,6 +64,7 @@ Example c17_ex :
 Proof. split; vm_compute; reflexivity. Qed.
 
 Print Assumptions c17_exact.
+Print Assumptions c17_whole_call.
 Print Assumptions c17_first_request.
 Print Assumptions c17_fallback_empty.
 Print Assumptions c17_fallback_unknown.
